@@ -10,7 +10,7 @@ if ! git apply "$D/patch.diff" 2>/dev/null; then echo "$ID: PATCH DOES NOT APPLY
 PYTHONPATH="$WT/src" timeout 600 /venv/bin/python "$D/demo.py" > "$D/.demo_mutant.log" 2>&1; rc_mut=$?
 /verif/tools/isolated_tests.sh "$WT" tests > "$D/.tests.log" 2>&1
 summary="$(tail -1 "$D/.tests.log")"
-failed="$(grep -E '^(FAILED|ERROR)' "$D/.tests.log" | sed 's/ - .*//' | tr '\n' ' ')"
+failed="$(grep -E '^(FAILED|ERROR)' "$D/.tests.log" | sed -e 's/ - .*//' -e 's/^FAILED //' -e 's/^ERROR //' | tr '\n' ' ')"
 cd /; git -C /repo worktree remove --force "$WT"
 python3 - "$D" "$rc_clean" "$rc_mut" "$summary" "$failed" <<'PY'
 import json,sys,os
